@@ -1230,12 +1230,14 @@ fn eval_bin_case(bin: &Path, case: &BinCase, doc: &Documented, oracle: &Oracle) 
     } else {
         ("default", "./contracts".to_string())
     };
+    let kind = norm_path(&expected_path, &cwd);
     let dir_key = match source {
+        // --path given explicitly but spelled like the default directory: still "given"
+        "flag" if kind == "contracts" && !case.flag.as_deref().unwrap_or("").starts_with("@ABS/") => "c14:flag-path-ignored:explicit-default-spelling",
         "flag" => "c14:flag-path-ignored",
         "toml" => "c14:toml-path-ignored",
         _ => "c14:wrong-default-dir",
     };
-    let kind = norm_path(&expected_path, &cwd);
     let exists = cwd.join(&kind).is_dir();
     let expect_desc = format!("analysed directory = {} ({}), patterns = {:?}", expected_path, source, expected_lists);
     if !exists {
@@ -1384,6 +1386,17 @@ fn c14_bin(r: &mut CheckResult, bin: &Path, doc: &Documented, tier: &str, rng: &
             }
         }
     }
+    // --path given explicitly but spelled like the default directory, toml path pointing elsewhere: --path wins
+    for flag in ["./contracts", "contracts", "./contracts/"] {
+        for tp in ["tdir", "./tdir", "@ABS/tdir"] {
+            for si in [0, n_fixed] {
+                if si < sels.len() {
+                    cases.push(BinCase { flag: Some(flag.into()), toml: true, verbatim: false, tpath: Some(tp.into()), contracts: true, pre: false, lists: sels[si].clone() });
+                }
+            }
+        }
+        cases.push(BinCase { flag: Some(flag.into()), toml: false, verbatim: false, tpath: None, contracts: true, pre: false, lists: [vec![], vec![], vec![]] });
+    }
     // unknown names: one bad name among good ones
     for (i, c) in CATS.iter().enumerate() {
         let mut bad: Vec<String> = vec!["not_a_pattern".into(), String::new()];
@@ -1459,7 +1472,7 @@ pub fn run_c14(tier: &str, seed: u64) -> CheckResult {
     r.extra.push(("names_per_source".into(), J::Obj(doc.per_source.iter().map(|(s, n)| (s.clone(), J::Num(*n as i64))).collect())));
     r.rule = "name table: one case = one (category, spelling) call of the real str_to_*; non-trivial = distinct spellings (documented names in fixed + seeded/all casings; junk and near-miss names that must be rejected). binary: one case = one run of the real solstat binary in a fresh working directory that holds DIFFERENT probe files in ./contracts, ./tdir (toml path), ./pdir (--path) and ./ ; non-trivial = distinct (flag, toml, toml path, ./contracts present, pattern lists) combinations; the directory and the patterns are observed twice: hook H1 (VERIF-OPTS) and the file:line entries of solstat_report.md compared with the union of the library's per-pattern findings on the expected directory".into();
     r.bound = format!(
-        "{} documented names x (7 fixed casings + {} seeded casings, or all 2^letters when fewer); all pairs for distinctness; every get_all_* entry for reachability; --path in {} forms x ./contracts present/absent x (no toml | sample Solstat.toml verbatim | toml path in {} forms x {} pattern selections) + unknown-name runs",
+        "{} documented names x (7 fixed casings + {} seeded casings, or all 2^letters when fewer); all pairs for distinctness; every get_all_* entry for reachability; --path in {} forms x ./contracts present/absent x (no toml | sample Solstat.toml verbatim | toml path in {} forms x {} pattern selections) + --path spelled like the default (./contracts, contracts, ./contracts/) x toml path elsewhere in 3 forms + unknown-name runs",
         doc.names.values().map(|m| m.len()).sum::<usize>(),
         if tier == "thorough" { 4096 } else { 256 },
         if tier == "thorough" { 4 } else { 2 },
@@ -1654,7 +1667,7 @@ fn materialize(root: &Path, tree: &[TEntry]) {
 struct FrameCase {
     tree: String,
     cwd: String,   // outside | inside | parent
-    pre: String,   // none | big | small
+    pre: String,   // none | big | small | samelen | onebyte | othertree | ro-onebyte | ro-same (see PRE_STATES)
     cfg: String,   // all (no toml) | toml (one pattern per category)
     style: String, // rel | abs | default (default: only with cwd=parent, the tree is ./contracts and no --path is given)
 }
@@ -1693,14 +1706,68 @@ struct FrameOutcome {
     viols: Vec<Viol>,
     first_report: Option<Vec<u8>>,
     order_only: u64,
+    /// false when the requested previous-report state degenerates (e.g. the expected report is empty)
+    meaningful: bool,
     desc: String,
 }
 
+/// "<tree>~ren": the same tree with every analysed .sol file renamed to another name of equal length
+/// (first letter of the base name advanced by one: Alpha.sol -> Blpha.sol): a DIFFERENT tree whose
+/// report has the same byte length
+fn make_tree_id(id: &str, cfg_all: bool) -> Vec<TEntry> {
+    match id.strip_suffix("~ren") {
+        None => make_tree(id, cfg_all),
+        Some(base) => {
+            let mut t = make_tree(base, cfg_all);
+            for e in t.iter_mut() {
+                if e.rel.ends_with(".sol") && !e.rel.to_lowercase().ends_with(".t.sol") {
+                    let cut = e.rel.rfind('/').map(|i| i + 1).unwrap_or(0);
+                    let mut cs: Vec<char> = e.rel.chars().collect();
+                    // `cut` is a byte index; tree paths are ASCII
+                    let c = cs[cut];
+                    cs[cut] = match c {
+                        'Z' => 'A',
+                        'z' => 'a',
+                        c if c.is_ascii_alphabetic() => ((c as u8) + 1) as char,
+                        c => c,
+                    };
+                    e.rel = cs.into_iter().collect();
+                }
+            }
+            t
+        }
+    }
+}
+
+/// expected reports, keyed by (tree id, cfg): the first report of the history
+/// (cwd outside the tree, no previous report, relative --path)
+type RefCache = BTreeMap<(String, String), Option<Vec<u8>>>;
+
+const PRE_STATES: [&str; 8] = ["none", "big", "small", "samelen", "onebyte", "othertree", "ro-onebyte", "ro-same"];
+
+fn is_reference_case(case: &FrameCase) -> bool {
+    case.cwd == "outside" && case.pre == "none" && case.style == "rel"
+}
+
+fn reference_for(bin: &Path, tree: &str, cfg: &str, cache: &mut RefCache) -> Option<Vec<u8>> {
+    let key = (tree.to_string(), cfg.to_string());
+    if let Some(r) = cache.get(&key) {
+        return r.clone();
+    }
+    let rc = FrameCase { tree: tree.into(), cwd: "outside".into(), pre: "none".into(), cfg: cfg.into(), style: "rel".into() };
+    let r = eval_frame_case(bin, &rc, cache).first_report;
+    cache.insert(key, r.clone());
+    r
+}
+
 /// one history: snapshot, run, snapshot, run, snapshot
-fn eval_frame_case(bin: &Path, case: &FrameCase, reference: Option<&Vec<u8>>) -> FrameOutcome {
+fn eval_frame_case(bin: &Path, case: &FrameCase, cache: &mut RefCache) -> FrameOutcome {
+    let is_ref = is_reference_case(case);
+    // R: the report this tree must produce, obtained from an unrelated, empty working directory
+    let reference: Option<Vec<u8>> = if is_ref { None } else { reference_for(bin, &case.tree, &case.cfg, cache) };
     let sc = Scratch::new();
     let cfg_all = case.cfg != "toml";
-    let tree = make_tree(&case.tree, cfg_all);
+    let tree = make_tree_id(&case.tree, cfg_all);
     let style = if case.style == "default" && case.cwd != "parent" { "rel" } else { case.style.as_str() };
     let (cwd_rel, tree_rel, rel_arg): (&str, &str, &str) = match case.cwd.as_str() {
         "inside" => ("tree", "tree", "."),
@@ -1734,16 +1801,62 @@ fn eval_frame_case(bin: &Path, case: &FrameCase, reference: Option<&Vec<u8>>) ->
         args.push("../conf.toml".into());
     }
     let report_rel = format!("{}/{}", cwd_rel, REPORT);
-    let junk = match case.pre.as_str() {
+    // previous ./solstat_report.md
+    let mut meaningful = true;
+    let mut read_only = false;
+    let r_bytes: Vec<u8> = reference.clone().unwrap_or_default();
+    let junk: Option<Vec<u8>> = match case.pre.as_str() {
         "big" => Some(junk_report(true)),
         "small" => Some(junk_report(false)),
+        "samelen" => {
+            // junk of exactly len(R) bytes
+            let mut j: Vec<u8> = b"JUNK-REPORT-HEAD same length as the new report\n".to_vec();
+            while j.len() < r_bytes.len() {
+                j.extend_from_slice(b"junk line of a report that is not the result of this run\n");
+            }
+            j.truncate(r_bytes.len());
+            meaningful = j != r_bytes;
+            Some(j)
+        }
+        "onebyte" | "ro-onebyte" => {
+            // R with one byte changed in the middle
+            let mut j = r_bytes.clone();
+            if j.is_empty() {
+                meaningful = false;
+            } else {
+                let m = j.len() / 2;
+                j[m] = if j[m] == b'#' { b'*' } else { b'#' };
+            }
+            read_only = case.pre == "ro-onebyte";
+            Some(j)
+        }
+        "ro-same" => {
+            read_only = true;
+            Some(r_bytes.clone())
+        }
+        "othertree" => {
+            // the report of a different tree (same files under other names of equal length)
+            let other = reference_for(bin, &format!("{}~ren", case.tree.trim_end_matches("~ren")), &case.cfg, cache).unwrap_or_default();
+            meaningful = other != r_bytes && other.len() == r_bytes.len();
+            Some(other)
+        }
         _ => None,
     };
-    if let Some(j) = &junk {
-        write_file(&sc.p(&report_rel), j, 0o644);
+    if reference.is_none() && !is_ref {
+        meaningful = false; // no expected report could be obtained (reported by the reference history itself)
     }
-    let desc = format!("tree {} ({} entries), cwd {} , solstat {} , previous report: {}", case.tree, tree.len(), cwd_rel, args.join(" "), case.pre);
-    let mut out = FrameOutcome { viols: vec![], first_report: None, order_only: 0, desc: desc.clone() };
+    if let Some(j) = &junk {
+        write_file(&sc.p(&report_rel), j, if read_only { 0o444 } else { 0o644 });
+    }
+    let stale_class = match case.pre.as_str() {
+        "samelen" => "same-length",
+        "onebyte" => "one-byte-differs",
+        "ro-onebyte" => "one-byte-differs-read-only",
+        "othertree" => "other-tree-same-length",
+        _ => "other-length",
+    };
+    let desc = format!("tree {} ({} entries), cwd {} , solstat {} , previous report: {}{}", case.tree, tree.len(), cwd_rel, args.join(" "), case.pre, junk.as_ref().map(|j| format!(" ({} bytes)", j.len())).unwrap_or_default());
+    let mut out = FrameOutcome { viols: vec![], first_report: None, order_only: 0, meaningful, desc: desc.clone() };
     let in_tree = |rel: &str| rel == tree_rel || rel.starts_with(&format!("{}/", tree_rel));
     let mut prev = snapshot(&sc.root, "_io");
     let mut reports: Vec<Vec<u8>> = vec![];
@@ -1751,6 +1864,15 @@ fn eval_frame_case(bin: &Path, case: &FrameCase, reference: Option<&Vec<u8>>) ->
         let o = run_bin(bin, &sc.p(cwd_rel), &args, &sc.p("_io"));
         let now = snapshot(&sc.root, "_io");
         if !o.ok() {
+            if read_only && !o.timed_out && o.code.is_some() {
+                // a run that cannot replace a read-only report may fail, but then loudly; nothing else may change
+                for (rel, ch) in diff_snap(&prev, &now) {
+                    if rel != report_rel {
+                        out.viols.push(("c18:failed-run-leaves-traces".into(), format!("the failing run {} changes {} ({:?}): {}", run, rel, ch, desc), "nothing changes".into(), format!("{} {:?}", rel, ch)));
+                    }
+                }
+                break;
+            }
             out.viols.push(("c18:run-failed".into(), format!("run {} fails: {}", run, desc), "exit status 0".into(), format!("{}; stderr: {}", o.status(), o.err_tail())));
         }
         for (rel, ch) in diff_snap(&prev, &now) {
@@ -1784,8 +1906,21 @@ fn eval_frame_case(bin: &Path, case: &FrameCase, reference: Option<&Vec<u8>>) ->
         };
         let text = String::from_utf8_lossy(&rep).to_string();
         if run == 1 && junk.is_some() {
-            if text.contains("JUNK-REPORT-HEAD") {
-                out.viols.push(("c18:report-appended".into(), format!("the previous content of ./solstat_report.md survives the run: {}", desc), "report replaced".into(), format!("{} bytes, previous content still at the start ({} bytes before)", rep.len(), junk.as_ref().unwrap().len())));
+            let j = junk.as_ref().unwrap();
+            let differs_from_expected = match &reference {
+                Some(r) => j != r,
+                None => true,
+            };
+            if &rep == j && differs_from_expected && o.ok() {
+                // the run reports success but the previous file is still there, byte for byte
+                out.viols.push((
+                    format!("c18:stale-report-kept:{}", stale_class),
+                    format!("the run succeeds but ./solstat_report.md still holds the previous content: {}", desc),
+                    format!("the new report ({} bytes, hash {:016x})", r_bytes.len(), fnv64(&r_bytes)),
+                    format!("previous content kept ({} bytes, hash {:016x})", rep.len(), fnv64(&rep)),
+                ));
+            } else if text.contains("JUNK-REPORT-HEAD") {
+                out.viols.push(("c18:report-appended".into(), format!("the previous content of ./solstat_report.md survives the run: {}", desc), "report replaced".into(), format!("{} bytes, previous content still at the start ({} bytes before)", rep.len(), j.len())));
             } else if text.contains("JUNK-REPORT-TAIL") {
                 out.viols.push(("c18:report-not-truncated".into(), format!("the tail of a longer previous report survives the run: {}", desc), "report replaced".into(), format!("{} bytes, tail marker of the previous content present", rep.len())));
             }
@@ -1807,19 +1942,11 @@ fn eval_frame_case(bin: &Path, case: &FrameCase, reference: Option<&Vec<u8>>) ->
     }
     if let Some(first) = reports.first() {
         out.first_report = Some(first.clone());
-        // the result must not depend on the working directory or on what lay in it
-        let own_ref;
-        let reference = match reference {
-            Some(r) => Some(r),
-            None if case.cwd != "outside" || case.pre != "none" => {
-                let rc = FrameCase { tree: case.tree.clone(), cwd: "outside".into(), pre: "none".into(), cfg: case.cfg.clone(), style: "rel".into() };
-                own_ref = eval_frame_case(bin, &rc, Some(first)).first_report;
-                own_ref.as_ref()
-            }
-            None => None,
-        };
-        if let Some(r) = reference {
-            if r != first {
+        // after the run the file must equal R byte for byte: the result must not depend on the working
+        // directory or on what lay in it (a stale report already reported above is not reported twice)
+        if let Some(r) = &reference {
+            let stale_reported = out.viols.iter().any(|v| v.0.starts_with("c18:stale-report-kept"));
+            if r != first && !stale_reported {
                 if canonical(r) == canonical(first) {
                     out.order_only += 1;
                 } else {
@@ -1847,24 +1974,33 @@ pub fn run_c18(tier: &str, seed: u64) -> CheckResult {
         trees.push(format!("rand{}.{}", seed, k));
     }
     let cwds = ["outside", "inside", "parent"];
-    let pres = ["none", "big", "small"];
     let mut cases: Vec<FrameCase> = vec![];
     let mut rot = 0usize;
     for (ti, t) in trees.iter().enumerate() {
         for cfg in ["all", "toml"] {
-            // reference first: outside / none / rel
             for cwd in cwds {
+                // quick: every previous-report state for the first three trees; for the others the
+                // same-length states always, the remaining ones in rotation
                 let full = thorough || ti < 3;
                 let plist: Vec<&str> = if full {
-                    pres.to_vec()
-                } else if cwd == "outside" {
-                    vec!["none"]
+                    PRE_STATES.to_vec()
                 } else {
                     rot += 1;
-                    vec![pres[rot % 3]]
+                    let mut v = vec![];
+                    if cwd == "outside" {
+                        v.push("none");
+                    }
+                    v.push(["big", "small", "ro-onebyte", "ro-same"][rot % 4]);
+                    v.push(["samelen", "onebyte", "othertree"][rot % 3]);
+                    if cwd == "inside" {
+                        v.push("othertree");
+                    }
+                    v.dedup();
+                    v
                 };
                 for pre in plist {
-                    let styles: Vec<&str> = if thorough {
+                    let old_state = pre == "none" || pre == "big" || pre == "small";
+                    let styles: Vec<&str> = if thorough && old_state {
                         if cwd == "parent" {
                             vec!["rel", "abs", "default"]
                         } else {
@@ -1884,41 +2020,38 @@ pub fn run_c18(tier: &str, seed: u64) -> CheckResult {
             }
         }
     }
-    let mut refs: BTreeMap<(String, String), Vec<u8>> = BTreeMap::new();
+    let mut cache: RefCache = BTreeMap::new();
     let mut order_only = 0;
-    let mut runs = 0;
+    let mut degenerate = 0;
+    let mut per_state: BTreeMap<String, i64> = BTreeMap::new();
     for case in &cases {
-        let key = (case.tree.clone(), case.cfg.clone());
-        let is_ref = case.cwd == "outside" && case.pre == "none" && case.style == "rel";
-        let dummy = vec![];
-        let o = if is_ref { eval_frame_case(&bin, case, Some(&dummy)) } else { eval_frame_case(&bin, case, refs.get(&key)) };
-        let mut viols = o.viols;
-        if is_ref {
-            // the dummy reference is not a comparison
-            viols.retain(|v| v.0 != "c18:result-depends-on-cwd");
-            if let Some(f) = &o.first_report {
-                refs.insert(key, f.clone());
-            }
+        let o = eval_frame_case(&bin, case, &mut cache);
+        if is_reference_case(case) {
+            cache.insert((case.tree.clone(), case.cfg.clone()), o.first_report.clone());
         }
-        runs += 2;
         r.evaluations += 1;
         order_only += o.order_only;
-        if o.first_report.is_some() {
+        if o.first_report.is_some() && o.meaningful {
             r.nontrivial.insert(case.encode());
+            *per_state.entry(case.pre.clone()).or_default() += 1;
+        } else if !o.meaningful {
+            degenerate += 1;
         }
-        if r.samples.len() < 6 && r.evaluations % 11 == 1 {
-            r.sample(J::obj(vec![("history", J::s(o.desc.clone())), ("report_bytes", J::Num(o.first_report.as_ref().map(|f| f.len() as i64).unwrap_or(-1))), ("violations", J::Num(viols.len() as i64))]));
+        if r.samples.len() < 6 && r.evaluations % 23 == 1 {
+            r.sample(J::obj(vec![("history", J::s(o.desc.clone())), ("report_bytes", J::Num(o.first_report.as_ref().map(|f| f.len() as i64).unwrap_or(-1))), ("violations", J::Num(o.viols.len() as i64))]));
         }
-        for (k, w, e, a) in viols {
+        for (k, w, e, a) in o.viols {
             r.violate(&k, &w, case.replay(), e, a);
         }
     }
-    r.extra.push(("binary_runs".into(), J::Num(runs)));
+    r.extra.push(("histories".into(), J::Num(cases.len() as i64)));
+    r.extra.push(("nontrivial_histories_per_previous_report_state".into(), J::Obj(per_state.into_iter().map(|(k, v)| (k, J::Num(v))).collect())));
+    r.extra.push(("degenerate_histories".into(), J::Num(degenerate)));
     r.extra.push(("order_only_differences_attributed_to_C13".into(), J::Num(order_only as i64)));
-    r.rule = "one case = one history (tree, working directory relative to it, previous ./solstat_report.md, configuration): snapshot of the whole scratch area (analysed tree + working directory + bystanders: relative path, type, mode, size, FNV-1a hash, mtime of regular files), run, snapshot, run, snapshot; allowed difference: ./solstat_report.md created or its content replaced. Non-trivial = histories in which a report was produced. Inputs give findings for exactly ONE pattern per category (cfg=all: contracts that only trigger unsafe_erc20_operation/sstore/private_vars_leading_underscore; cfg=toml: one pattern per category selected), so the HashMap section order (C13's defect) cannot vary; should two reports still differ only in line order the difference is counted in order_only_differences_attributed_to_C13, not reported here".into();
-    r.bound = format!("{} trees ({} fixed: single, read-only/mixed/binary files, nested, decoy report files, symlinks, no .sol, no findings; {} seeded random) x cwd in {{outside, analysed directory (--path .), parent}} x previous report in {{none, larger junk, smaller junk}} x {{all patterns, toml}} x path styles (quick: a rotating subset); 2 consecutive runs each", trees.len(), TREE_IDS.len(), n_rand);
+    r.rule = "one case = one history (tree, working directory relative to it, previous ./solstat_report.md, configuration): snapshot of the whole scratch area (analysed tree + working directory + bystanders: relative path, type, mode, size, FNV-1a hash, mtime of regular files), run, snapshot, run, snapshot; allowed difference: ./solstat_report.md created or its content replaced; after every run the file must equal, byte for byte, the report R obtained for the same tree from an unrelated empty working directory. Previous-report states: none, larger junk, smaller junk, junk of exactly len(R), R with one byte changed in the middle (also read-only), R itself read-only, the report of a different tree of the same length (same files renamed to names of equal length); with a read-only previous report a run may fail with a non-zero status but may not succeed and keep the old file. Non-trivial = histories in which a report was produced and the previous-report state is not degenerate (e.g. empty R). Inputs give findings for exactly ONE pattern per category (cfg=all: contracts that only trigger unsafe_erc20_operation/sstore/private_vars_leading_underscore; cfg=toml: one pattern per category selected), so the HashMap section order (C13's defect) cannot vary; should two reports still differ only in line order the difference is counted in order_only_differences_attributed_to_C13, not reported here".into();
+    r.bound = format!("{} trees ({} fixed: single, read-only/mixed/binary files, nested, decoy report files, symlinks, no .sol, no findings; {} seeded random) x cwd in {{outside, analysed directory (--path .), parent}} x 8 previous-report states x {{all patterns, toml}} x path styles (quick: every state for 3 trees, a rotating subset that always contains a same-length state for the others); 2 consecutive runs each", trees.len(), TREE_IDS.len(), n_rand);
     r.assumptions.push("the snapshot covers the scratch area only (analysed tree, working directory, toml file); writes elsewhere in the file system are not observed".into());
-    r.assumptions.push("run as the current user: read-only modes are recorded and compared but do not stop a privileged user from writing".into());
+    r.assumptions.push("run as the current user: read-only modes are recorded and compared but do not stop a privileged user from writing (as root the read-only previous report is simply replaced)".into());
     r
 }
 
@@ -1928,7 +2061,8 @@ pub fn replay_c18(payload: &str) -> (bool, String) {
         Some(b) => b,
         None => return (true, "no solstat binary (set VXN_SOLSTAT_BIN)".to_string()),
     };
-    let o = eval_frame_case(&bin, &case, None);
+    let mut cache: RefCache = BTreeMap::new();
+    let o = eval_frame_case(&bin, &case, &mut cache);
     let mut msg = o.desc.clone();
     for (k, w, e, a) in &o.viols {
         msg.push_str(&format!("\n{}: {}\n  expected: {}\n  actual:   {}", k, w, e, a));
